@@ -296,7 +296,15 @@ Qed.
 Lemma statuses_ok : forall s tg, NoDup (map t_id (m_txs s)) -> statuses_ok_b s tg (transaction_statuses s tg) = true.
 Proof.
   intros s tg ND. unfold statuses_ok_b, transaction_statuses. rewrite forall2b'_map. apply forallb_forall. intros t I.
-  unfold status_row_ok. rewrite tx_status_id, Z.eqb_refl. simpl.
+  unfold status_row_ok.
+  assert (E0 : (if row_dead_b s tg t then option_eqb blocker_eqb (ts_blocked (tx_status s tg (dead_set s tg) t)) (Some BUnsatisfiable) else true) = true).
+  { destruct (row_dead_b s tg t) eqn:RD; [|reflexivity]. unfold row_dead_b in RD. apply andb_true_iff in RD. destruct RD as [U D].
+    assert (RU : row_unsatisfiable (dead_set s tg) t = true).
+    { unfold row_unsatisfiable. unfold sp_unmined in U. rewrite U. simpl. apply orb_true_iff in D. destruct D as [D|D]; [rewrite D; reflexivity|].
+      apply orb_true_iff. right. apply existsb_exists in D. destruct D as [d [Id Md]]. apply existsb_exists. exists d. split; [exact Id|].
+      apply dead_set_complete. apply sp_dead_sound. exact Md. }
+    unfold tx_status. rewrite RU. reflexivity. }
+  rewrite E0. rewrite tx_status_id, Z.eqb_refl. simpl.
   destruct (status_ready_action s tg (dead_set s tg) t) as [RA RB].
   set (x := tx_status s tg (dead_set s tg) t) in *.
   assert (E2 : Bool.eqb (ts_ready x) (is_some (ts_action x)) = true).
